@@ -117,6 +117,14 @@ func (c *Ctx) hexClassifier(pkg, recv, name string, hasTerminator bool) {
 	modeF := c.fld("scanner.eexec")
 	var lead []byte
 	own := c.privateHelpersB(fn) // pieces of fn that were extracted are evaluated in place
+	// the decryption step (the function that advances the cipher state, decided by CIPHER-SHAPE) may be
+	// applied by the hex reader itself or by its caller: for the classification it is the identity
+	cipherStep := map[*ssa.Function]bool{}
+	if direct, _ := c.stateWritersB(scT, c.fld("scanner.r")); !hasTerminator {
+		for _, f := range direct {
+			cipherStep[f] = true
+		}
+	}
 	classify := func(b byte) (kind string, val int64, why string) {
 		input := append(append([]byte{}, lead...), b, '1', '2', '>')
 		if len(lead) > 0 {
@@ -143,6 +151,13 @@ func (c *Ctx) hexClassifier(pkg, recv, name string, hasTerminator bool) {
 			sc := call.Common().StaticCallee()
 			if sc == nil || own[sc] {
 				return sv{}, false
+			}
+			if cipherStep[sc] && sc.Signature.Results().Len() == 1 && isByteB(sc.Signature.Results().At(0).Type()) {
+				for i, p := range sc.Params {
+					if isByteB(p.Type()) && i < len(args) {
+						return args[i], true
+					}
+				}
 			}
 			if sc.Signature.Recv() != nil && pointsTo(sc.Signature.Recv().Type(), scT) {
 				res := sc.Signature.Results()
@@ -317,6 +332,8 @@ func (c *Ctx) beginEexecTable() {
 		why      string
 	}
 	own := c.privateHelpersB(fn) // pieces of fn that were extracted are evaluated in place
+	// the number of lead bytes is a parameter (then the operator's argument counts) or fixed in the function
+	takesLen := len(fn.Params) > 1
 	run := func(first byte, window string) outcome {
 		var o outcome
 		o.mode = -1
@@ -371,7 +388,11 @@ func (c *Ctx) beginEexecTable() {
 			}
 			return sv{}, false
 		}
-		ret := ev.runFunc(fn, []sv{{k: svAddr, s: "s"}, intV(ivLen)})
+		beginArgs := []sv{{k: svAddr, s: "s"}}
+		if takesLen {
+			beginArgs = append(beginArgs, intV(ivLen))
+		}
+		ret := ev.runFunc(fn, beginArgs)
 		o.why = ev.why
 		if len(ret) != 1 || ret[0].k != svNil {
 			o.why += fmt.Sprintf(" returns %v", ret)
@@ -429,7 +450,11 @@ func (c *Ctx) beginEexecTable() {
 	c.check(bad == "" && hexMode != binMode && hexMode > 0 && binMode > 0 && nonHex == wantNH, "EEXEC-HEXDETECT", fname, "binary iff one of the first bytes is not in [0-9A-Fa-f]", fn.Pos(), "4 positions × 256 byte values evaluated",
 		fmt.Sprintf("the set of bytes that make the section binary is {%s}, expected the complement of the hexadecimal digits %s", setString(nonHex), bad))
 	o := run('X', "0000")
-	c.check(ivLen == 4 && o.peeked == 4, "EEXEC-HEXDETECT", fname, "the first four bytes are inspected", fn.Pos(), fmt.Sprintf("look-ahead of %d bytes", o.peeked), fmt.Sprintf("hex/binary detection looks at %d bytes (the operator passes %d), the specification says 4", o.peeked, ivLen))
+	passes := fmt.Sprintf("the operator passes %d", ivLen)
+	if !takesLen {
+		passes = "the operator passes no length"
+	}
+	c.check((ivLen == 4 || !takesLen) && o.peeked == 4, "EEXEC-HEXDETECT", fname, "the first four bytes are inspected", fn.Pos(), fmt.Sprintf("look-ahead of %d bytes", o.peeked), fmt.Sprintf("hex/binary detection looks at %d bytes (%s), the specification says 4", o.peeked, passes))
 	c.check(o.key.k == svInt && o.key.i == 55665, "EEXEC-LEADBYTES", fname, "the cipher state is (re)set to 55665 before the first byte is decrypted", fn.Pos(), "state at the first decrypted read: "+o.key.String(), "when the first lead byte is decrypted the cipher state is "+o.key.String()+", the specification says 55665 (a second eexec section on the same input would continue with a stale state)")
 	c.check(o.consumed == 4, "EEXEC-LEADBYTES", fname, "exactly four decrypted lead bytes are discarded", fn.Pos(), fmt.Sprintf("%d reads after the decision", o.consumed), fmt.Sprintf("BeginEexec discards %d decrypted bytes, the specification says 4", o.consumed))
 }
